@@ -56,6 +56,14 @@ def check(run):
     from . import C14 as _C14
     with R.as_rule('C02.P3'):
         _C14.param(R)            # every _on_event call is given run()'s auto_pong: the reaction does not depend on the phase
+    # the housekeeping runs once per read and once per event: a check that fires without time having passed (a zero /
+    # disabled timeout taken as armed, a ping that leaves its schedule where it was) makes the result depend on the cuts
+    from . import C15 as _C15
+    R.rule('C02.timers', 'housekeeping is a function of time, not of the number of reads: disabled timeouts stay disabled, an '
+                         'automatic ping moves its schedule into the future', 8)
+    with R.as_rule('C02.timers'):
+        _C15.ping(R)
+        _C15.close(R, RID='C02.timers', rearm=False)
     p1(R)
     C10.limit(R, RID='C02.P1b')
     C05.track(R, RID='C02.P2')
